@@ -101,3 +101,17 @@ def gen_apply_op(rng, n_jobs, with_failures=True):
     if rng.random() < .3:
         op['init'] = True
     return op
+
+
+def gen_repeat_fail_scenario(rng):
+    """several failing calls in a row on ONE pool, failing at the same kind of site: every call must raise ITS OWN error"""
+    import copy
+    sc = gen_fail_scenario(rng)
+    sc['pool'].pop('keep_alive', None)
+    op = sc['ops'][0]
+    reps = rng.choice([2, 2, 3])
+    sc['ops'] = [copy.deepcopy(op) for _ in range(reps)]
+    if rng.random() < .5:
+        for o in sc['ops']:
+            o['fail']['exc'] = rng.choice(['ValueError', 'Custom', 'KeyError'])
+    return sc
